@@ -30,6 +30,25 @@ func plan(prop, tier string) []Part {
 			{Name: "random", N: q(tier, 32, 640), Chunk: 2, Timeout: to},
 			{Name: "mono", N: q(tier, 32, 320), Chunk: 2, Timeout: to},
 		}
+	case "C01":
+		ps := []Part{
+			{Name: "mixed", N: q(tier, 600, 12000), Chunk: 40, Procs: []int{2, 16, 4, 1}, Timeout: to},
+			{Name: "nq", N: q(tier, 400, 8000), Chunk: 40, Procs: []int{2, 16, 4, 1}, Timeout: to},
+			{Name: "big", N: q(tier, 16, 200), Chunk: 4, Procs: []int{4, 16}, Timeout: to},
+		}
+		return ps
+	case "C02":
+		return []Part{
+			{Name: "mixed", N: q(tier, 600, 12000), Chunk: 40, Procs: []int{2, 16, 4, 1}, Timeout: to},
+			{Name: "nq", N: q(tier, 400, 8000), Chunk: 40, Procs: []int{2, 16, 4, 1}, Timeout: to},
+		}
+	case "C03", "C13", "C14", "C16":
+		return []Part{{Name: "mixed", N: q(tier, 800, 16000), Chunk: 40, Procs: []int{2, 16, 4, 1}, Timeout: to}}
+	case "C05":
+		return []Part{
+			{Name: "mixed", N: q(tier, 600, 12000), Chunk: 40, Procs: []int{2, 16, 4, 1}, Timeout: to},
+			{Name: "nq", N: q(tier, 300, 6000), Chunk: 40, Procs: []int{2, 16, 4, 1}, Timeout: to},
+		}
 	case "C19":
 		return []Part{{Name: "script", N: q(tier, 12, 300), Chunk: 1, Timeout: to}}
 	case "C20":
